@@ -34,7 +34,7 @@ def step (s : Sess) (c : Cmd) : Sess × String × String :=
   match c.op with
   | "new" | "new_default" =>
     let cap := if c.op == "new" then c.nat "cap" Gen.DEFAULT_CC_RBUF_CAPACITY else Gen.DEFAULT_CC_RBUF_CAPACITY
-    let (st, r, m) := Rbuf.new cap m
+    let (st, r, m) := Rbuf.newT (if c.op == "new" then .conf else .libc) cap m
     -- spec: the constructor is refused exactly when the C run reported a fired refusal
     let (sst, sp) := if c.fired > 0 then (Stat.errAlloc, none) else (Stat.ok, some (Spec.Fifo.empty cap))
     let s' : Sess := { model := r, spec := sp, mem := m }
@@ -53,6 +53,11 @@ def step (s : Sess) (c : Cmd) : Sess × String × String :=
       let s' : Sess := { model := some r', spec := some f', mem := m }
       let h (st : Stat) (o : Option Nat) := match o with | some v => s!"{fmtStat st} out={v}" | none => fmtStat st
       (s', (line (h sst sout) s').1, (line (h st out) s').2)
+    | "peek" =>
+      -- raw slot accessor: not part of the FIFO abstraction, so the spec line only repeats the content
+      let (v, m) := r.peek ((c.argStr 0).toInt?.getD 0) m
+      let s' : Sess := { s with mem := m }
+      (s', s!"S ? peek", (line s!"st=- out={v}" s').2)
     | "destroy" =>
       let m := r.destroy m
       let s' : Sess := { model := none, spec := none, mem := m }
